@@ -33,7 +33,9 @@ LEAVES = ([("none",), ("bool", True), ("bool", False)]
           + [("int", v) for v in (0, 1, -1, 2 ** 53 + 1, 10 ** 30, -(2 ** 63))]
           + [("float", v) for v in ("0.5", "-0.0", "0.0", "1e308", "5e-324", "inf", "-inf", "nan", "1.0")]
           + [("str", v) for v in ("", "a", "ü", "\x00", "\U0001f600", "\ud800", "__json_type__", "1", "null")]
-          + [("uuid", U1), ("uuid", U2), ("point1", 3), ("point2", "1.5", "-2.0")])
+          + [("uuid", U1), ("uuid", U2), ("point1", 3), ("point2", "1.5", "-2.0")]
+          # registered third-party types that are also JSON leaf types, a serialiser class that is also a list
+          + [("level", 2), ("tagline", "null"), ("bag", 0), ("bag", 2)])
 
 OBJ = ["Box", "SubBox", "SubSubBox", "Foreign", "ForeignSub"]
 NESTED_CLASS = "Shelf.Slot"  # a class that is not a module attribute: only in a few dedicated cases (open finding C18-F1)
@@ -54,6 +56,12 @@ def build(c):
         return M.Point(c[1])
     if k == "point2":
         return M2.Point(float(c[1]), float(c[2]))
+    if k == "level":
+        return M.Level(c[1])
+    if k == "tagline":
+        return M.Tagline(c[1])
+    if k == "bag":
+        return M.Bag([1, "a", M.Level.LOW][:c[1] + 1] if c[1] else [])
     if k == "list":
         return [build(x) for x in c[1:]]
     if k == "obj":
@@ -158,13 +166,13 @@ def same(a, b):
 def check_tags(value, js, problems):
     """every serialised object carries module + '.' + qualified class name"""
     from krrood.adapters.json_serializer import JSON_TYPE_NAME
-    if isinstance(value, list):
+    if type(value) is list:
         if not isinstance(js, list) or len(js) != len(value):
             problems.append(f"list serialised as {type(js).__name__}")
             return
         for v, j in zip(value, js):
             check_tags(v, j, problems)
-    elif isinstance(value, (type(None), bool, int, float, str)):
+    elif type(value) in (type(None), bool, int, float, str):
         if type(js) is not type(value):
             problems.append(f"leaf {value!r} serialised as {js!r}")
     else:
@@ -175,8 +183,10 @@ def check_tags(value, js, problems):
         want = cls.__module__ + "." + cls.__qualname__
         if js.get(JSON_TYPE_NAME) != want:
             problems.append(f"tag of {cls.__name__} is {js.get(JSON_TYPE_NAME)!r}, expected {want!r}")
+        if isinstance(value, list) and "items" in js:
+            check_tags(list(value), js["items"], problems)
         for attr in ("payload", "extra", "v"):
-            if hasattr(value, attr) and attr in js:
+            if hasattr(value, attr) and attr in js and not isinstance(value, (int, str)):
                 check_tags(getattr(value, attr), js[attr], problems)
 
 
